@@ -170,9 +170,17 @@ pub struct SimReader {
     broken: Option<ErrKind>,
     budget: u64,
     pub log: SharedLog,
+    /// re-entrancy: at the start of the given call (1-based) the reader runs
+    /// this closure - an independent, nested use of the library on the same
+    /// thread while the outer call is in flight
+    hook: Option<(u64, Box<dyn FnMut()>)>,
 }
 
 impl SimReader {
+    pub fn with_hook(mut self, at_call: u64, f: Box<dyn FnMut()>) -> SimReader {
+        self.hook = Some((at_call, f));
+        self
+    }
     pub fn new(data: Vec<u8>, script: Vec<ReadStep>) -> SimReader {
         let budget = call_budget(data.len(), script.len());
         SimReader {
@@ -184,6 +192,7 @@ impl SimReader {
             broken: None,
             budget,
             log: Rc::new(RefCell::new(SeamLog::default())),
+            hook: None,
         }
     }
     pub fn log(&self) -> SharedLog {
@@ -194,6 +203,11 @@ impl SimReader {
 impl Read for SimReader {
     fn read(&mut self, buf: &mut [u8]) -> io::Result<usize> {
         let _seam_alloc = crate::alloc_meter::Exclude::new();
+        let call_no = self.log.borrow().calls + 1;
+        if self.hook.as_ref().is_some_and(|h| h.0 == call_no) {
+            let mut h = self.hook.take().unwrap();
+            (h.1)();
+        }
         let mut log = self.log.borrow_mut();
         log.calls += 1;
         if log.calls > self.budget {
@@ -282,9 +296,15 @@ pub struct SimBufReader {
     broken: Option<ErrKind>,
     budget: u64,
     pub log: SharedLog,
+    /// re-entrancy hook, as in SimReader
+    hook: Option<(u64, Box<dyn FnMut()>)>,
 }
 
 impl SimBufReader {
+    pub fn with_hook(mut self, at_call: u64, f: Box<dyn FnMut()>) -> SimBufReader {
+        self.hook = Some((at_call, f));
+        self
+    }
     pub fn new(data: Vec<u8>, script: Vec<ReadStep>) -> SimBufReader {
         let budget = call_budget(data.len(), script.len());
         SimBufReader {
@@ -297,6 +317,7 @@ impl SimBufReader {
             broken: None,
             budget,
             log: Rc::new(RefCell::new(SeamLog::default())),
+            hook: None,
         }
     }
     pub fn log(&self) -> SharedLog {
@@ -307,6 +328,11 @@ impl SimBufReader {
 impl BufRead for SimBufReader {
     fn fill_buf(&mut self) -> io::Result<&[u8]> {
         let _seam_alloc = crate::alloc_meter::Exclude::new();
+        let call_no = self.log.borrow().calls + 1;
+        if self.hook.as_ref().is_some_and(|h| h.0 == call_no) {
+            let mut h = self.hook.take().unwrap();
+            (h.1)();
+        }
         let mut log = self.log.borrow_mut();
         log.calls += 1;
         if log.calls > self.budget {
